@@ -131,6 +131,8 @@ fn check_equalities(w: &World) -> Check {
 }
 
 const NOPS: usize = 19;
+/// Largest body (in instructions) a history is allowed to build by concatenation or looping.
+const SIZE_CAP: usize = 4000;
 
 fn step(src: &mut Src, w: &mut World, tier: Tier, out: &mut Outcome) -> Result<(), Failure> {
     let k = src.below(w.live.len());
@@ -162,6 +164,13 @@ fn step(src: &mut Src, w: &mut World, tier: Tier, out: &mut Outcome) -> Result<(
         }
         3 | 4 => {
             let j = src.below(w.live.len());
+            // repeated self-concatenation doubles a program at every step; the property says nothing
+            // about time or memory, so histories stop growing a program beyond a few thousand
+            // instructions
+            if w.live[k].p.body_instructions().count() + w.live[j].p.body_instructions().count() > SIZE_CAP {
+                out.class("op:skipped-size-cap");
+                return Ok(());
+            }
             let rhs = w.live[j].p.clone();
             let tainted = w.live[k].tainted || w.live[j].tainted;
             if op == 3 {
